@@ -82,7 +82,6 @@ Print Assumptions ctw_parameters_admissible.
 (* fractions_ok k p y em had :=  0 <= em /\ 0 <= had /\ em + had <= 1
      /\ (k = NC -> em = 0 /\ had = y)
      /\ (k = CC -> electron flavour -> em = 1 - y /\ had = y /\ em + had = 1)
-     /\ (k = CC -> other flavour -> (em, had) = (0, y)  \/  y < em + had <= 1 - y)
    for ANY secondary tables (rows), ANY Poisson streams ns and uniform streams us. *)
 Theorem fractions_spec_ctw : forall s rows ns us,
   cc_or_nc (Inter_kind s) -> neutrino (Inter_pid s) -> 0 < Inter_energy s -> 0 <= Inter_inelasticity s <= 1 ->
